@@ -23,8 +23,8 @@ PERM_SETS = {"quick": 24, "thorough": 12}
 CASES = {"quick": 1200 + PERM_SETS["quick"], "thorough": 12000 + PERM_SETS["thorough"]}
 FLOOR = {"quick": 1100, "thorough": 11000}
 FLOOR_COUNTERS = {
-    "quick": {"pointer_events": 20000, "gabriel_graphs_checked": 350, "permutation_fits": 24 * 120 + 1000, "periodic_fits": 300, "tie_free_relation_cases": 600, "refitted_estimators": 350, "other_length_units": 250, "small_length_units": 100, "cell_given_after_construction": 120, "free_space_fits_next_to_a_periodic_bystander": 200},
-    "thorough": {"pointer_events": 250000, "gabriel_graphs_checked": 3500, "permutation_fits": 12 * 5040 + 10000, "periodic_fits": 3000, "tie_free_relation_cases": 6000, "refitted_estimators": 3500, "other_length_units": 2500, "small_length_units": 1000, "cell_given_after_construction": 1200, "free_space_fits_next_to_a_periodic_bystander": 2000},
+    "quick": {"pointer_events": 20000, "gabriel_graphs_checked": 350, "permutation_fits": 24 * 120 + 1000, "periodic_fits": 300, "tie_free_relation_cases": 600, "refitted_estimators": 350, "other_length_units": 250, "small_length_units": 100, "cell_given_after_construction": 120, "free_space_fits_next_to_a_periodic_bystander": 200, "weights_as_ranks_in_another_dtype": 300, "legal_fits_after_refused_fits": 300},
+    "thorough": {"pointer_events": 250000, "gabriel_graphs_checked": 3500, "permutation_fits": 12 * 5040 + 10000, "periodic_fits": 3000, "tie_free_relation_cases": 6000, "refitted_estimators": 3500, "other_length_units": 2500, "small_length_units": 1000, "cell_given_after_construction": 1200, "free_space_fits_next_to_a_periodic_bystander": 2000, "weights_as_ranks_in_another_dtype": 3500, "legal_fits_after_refused_fits": 3500},
 }
 RULE = (
     "case = point set (1-4 dimensions, 2-150 points [<= 60 in Gabriel mode]; generic / collinear / duplicated / lattice), "
@@ -87,6 +87,8 @@ def gen(rng, tier, index):
             case["cuts"] = case["cuts"] * unit**2
     case["unit"] = unit
     case["bystander"] = bool(rng.random() < 0.4)
+    case["wdtype"] = gens.pick(rng, (None, None, None, "uint8", "uint16", "uint64", "int32", "float32"))  # weights as ranks / counts in another dtype
+    case["failed_fit"] = bool(rng.random() < 0.4)
     case["cell_set"] = gens.pick(rng, ("ctor", "ctor", "set_params", "setattr", "decoy_then_set"))
     case["refit"] = bool(rng.random() < 0.4)  # the estimator is fitted again (other data in between)
     case["X_other"] = _points(rng, n, d, "generic") * unit
@@ -203,10 +205,21 @@ def _fit(case, X, w, cuts=None, record=None, graphs=None, est=None):
             return g
 
         ctxs.append(rt.patched(mod, "_get_gabriel_graph", wg))
+    wfit = w.copy()
+    if case.get("wdtype") and len(w) < 250:
+        wfit = np.argsort(np.argsort(w)).astype(case["wdtype"])  # the same order of weights, stored as ranks in another dtype
+    if case.get("failed_fit") and est is None:
+        # a failure in the history: a successful fit on other points of the same number, then fits on THESE points that are
+        # refused (weights missing, weights of another length), then the legal fit
+        for args, kws in (((case["X_other"].copy(),), {"samples_weight": wfit.copy()}), ((X.copy(),), {}), ((X.copy(),), {"samples_weight": wfit[:-1].copy()})):
+            try:
+                q.fit(*args, **kws)
+            except Exception:  # noqa: BLE001
+                pass
     for c in ctxs:
         c.__enter__()
     try:
-        q.fit(X.copy(), samples_weight=w.copy())
+        q.fit(X.copy(), samples_weight=wfit)
     finally:
         for c in reversed(ctxs):
             c.__exit__(None, None, None)
@@ -237,6 +250,10 @@ def run(case, j):
     q = j.lib("fit", _fit, case, X, w, None, record, graphs)
     if case.get("bystander") and cell is None:
         j.note("free_space_fits_next_to_a_periodic_bystander")
+    if case.get("wdtype") and n < 250:
+        j.note("weights_as_ranks_in_another_dtype")
+    if case.get("failed_fit"):
+        j.note("legal_fits_after_refused_fits")
     if cell is not None:
         j.note("periodic_fits")
         if case.get("cell_set", "ctor") != "ctor":
